@@ -325,9 +325,13 @@ def _get_val_in_bset(bset: isl.BasicSet, idim: int) -> ScalarExpression:
     """
     from loopy.symbolic import aff_to_expr
 
-    max_val = bset.dim_max(idim)
+    # dim_min/dim_max are only guaranteed on isl.Set (recent islpy no longer
+    # offers them on BasicSet)
+    set_ = bset.to_set() if isinstance(bset, isl.BasicSet) else bset
 
-    assert max_val.is_equal(bset.dim_min(idim))
+    max_val = set_.dim_max(idim)
+
+    assert max_val.is_equal(set_.dim_min(idim))
 
     if max_val.n_piece() != 1:
         raise NotImplementedError("Shape inference resulted in a piecewise"
